@@ -80,8 +80,9 @@ class State:
 
 
 class AbsInt:
-    def __init__(self, fi, ranks=None, nonneg_params=(), int_params=None, int_arrays=()):
+    def __init__(self, fi, ranks=None, nonneg_params=(), int_params=None, int_arrays=(), null_preserving=()):
         self.fi = fi
+        self.null_preserving = set(null_preserving)   # callee names with f(None) is None and f(x) is not None otherwise
         self.ranks = dict(ranks or {})
         self.int_arrays = set(int_arrays)
         ip = set(int_params or ())
@@ -406,9 +407,19 @@ class AbsInt:
             alts = self.lin_alts(st, value_expr)
         if alts is None:
             st.env.pop(name, None)
+            prev_null = dict(st.null)
             self.bind_tensor(st, name, value_expr, lineno)
-            isnone = isinstance(value_expr, ast.Constant) and value_expr.value is None
-            st.null[name] = "none" if isnone else "notnone"
+            if isinstance(value_expr, ast.Constant):
+                st.null[name] = "none" if value_expr.value is None else "notnone"
+            elif isinstance(value_expr, (ast.List, ast.Tuple, ast.Dict, ast.ListComp, ast.BinOp, ast.JoinedStr, ast.Compare)):
+                st.null[name] = "notnone"
+            elif isinstance(value_expr, ast.Call) and dotted(value_expr.func) in self.null_preserving and len(value_expr.args) == 1 \
+                    and isinstance(value_expr.args[0], ast.Name) and value_expr.args[0].id in prev_null:
+                st.null[name] = prev_null[value_expr.args[0].id]
+            elif isinstance(value_expr, ast.Call) and (dotted(value_expr.func) or "").split(".")[0] in ("torch", "numpy"):
+                st.null[name] = "notnone"
+            else:
+                st.null.pop(name, None)
             return [st]
         out = []
         for l, cons in alts:
